@@ -166,7 +166,7 @@ def run(ctx):
                         val += float(c) * math.exp(float(e))
                     if not (abs(float(got) - val) <= 1e-9 * abs(val) + (1e-6 if direction == 1 else 1e-9)) or math.isnan(float(got)):
                         disagreements.append(dict(what="type %s dir %d x=%r: real %r model %r" % (name, direction, x, float(got), val)))
-                if len(disagreements) > 20:
+                if len(disagreements) > ctx.dis_limit:
                     break
     # --- sweep of the real code against the vendored reference
     n = 5000 if ctx.tier == "quick" else 100000
